@@ -1,0 +1,21 @@
+//go:build verif
+
+package ebpf
+
+import "github.com/cilium/ebpf"
+
+// Verification hook for property C20 (add-only; compiled only with -tags verif).
+
+// VerifSetCircuitIDMaps injects kernel maps for the two circuit-id tables
+// (hash-keyed circuit_id_map, fixed-key circuit_id_subscribers) so that the
+// Add/Get/Remove/Check circuit-id methods can be driven without loading the
+// compiled XDP object or attaching to an interface.  A nil argument leaves the
+// corresponding table untouched.
+func (l *Loader) VerifSetCircuitIDMaps(hashKeyed, fixedKeyed *ebpf.Map) {
+	if hashKeyed != nil {
+		l.circuitIDMap = hashKeyed
+	}
+	if fixedKeyed != nil {
+		l.circuitIDSubscribers = fixedKeyed
+	}
+}
